@@ -45,3 +45,8 @@ def condition_writer(prog: Program) -> FuncInfo:
         if f.module.name == "conditions" and f.name == "to_json_like" and "get_func_args_by_kind" in ast.unparse(f.node):
             return f
     raise AnalysisError("anchor not found: the condition serialiser (to_json_like using get_func_args_by_kind)")
+
+
+def tree_builder(prog: Program) -> FuncInfo:
+    """The function assembling the documentation tree (normally Schema.to_tree)."""
+    return _find(prog, "schema", "IMP_TYPE_LOOKUP", "documentation tree builder", "schema.Schema.to_tree")
